@@ -17,7 +17,7 @@ using namespace QtLogger;
 
 namespace {
 
-struct Params { std::string scenario, hist; int p = 2, m = 2, backlog = 2, racer = 0, cycles = 1, glib = 1, racerAt = -1; } P;
+struct Params { std::string scenario, hist; int p = 2, m = 2, backlog = 2, racer = 0, cycles = 1, glib = 1, racerAt = -1, nested = 0, fatal = 0; } P;
 
 std::string S(long long v) { return std::to_string(v); }
 
@@ -32,6 +32,9 @@ struct World {
     bool stopBegan = false, stopReturned = false, handlerDestroyed = false;
     int workerTid = -1;
     std::vector<std::string> acceptedBeforeStop, accepted;
+    int sinkInFlight = 0;               // threads inside a sink (send or flush) right now: sinks are not thread-safe, never more than one
+    bool nestedDone = false;
+    std::map<std::string, std::pair<long, long>> calls; // message -> (tick when the logging call began, tick when it returned)
     int workerInSink = 0;               // > 0 while the worker thread is inside a sink (C03: nobody may have to wait for a lock it holds then)
     bool syncForever = false;           // the last stop of the scenario has returned: every later message must be handled synchronously
     int opIndex = -1;
@@ -82,6 +85,11 @@ struct ProbeIn : Handler {
 struct ProbeOut : Handler {
     bool process(LogMessage &) override { vqt::yield("probe-out"); W->inFlight--; return true; }
 };
+std::function<void()> g_nestedLog;      // set by a scenario: a sink that itself logs a message while it handles "p0:0" on the logger thread
+void sinkOverlapEnter(const char *what)
+{
+    if (++W->sinkInFlight > 1) vs::violation("overlap", std::string("two threads are inside a sink at the same moment (") + what + "), or a sink was re-entered while it was handling a message");
+}
 struct RecSink : Sink {
     std::vector<Delivery> *out; const char *tag;
     RecSink(std::vector<Delivery> *o, const char *t) : out(o), tag(t) { }
@@ -92,11 +100,21 @@ struct RecSink : Sink {
         Delivery d { prod, idx, m.attribute(QStringLiteral("seq_number")).isValid() ? m.attribute(QStringLiteral("seq_number")).toLongLong() : -1, vs::self(), m.message().toStdString() };
         if (W->handlerDestroyed) vs::violation("delivery-after-destruction", "a sink ran after the handler object had been destroyed");
         sinkEnter();
+        sinkOverlapEnter("send");
         vqt::yield(tag);                // a sink of arbitrary duration
         out->push_back(d);
         vs::progress();
+        if (g_nestedLog && !W->nestedDone && d.text == "p0:0" && W->workerTid >= 0 && vs::self() == W->workerTid) { W->nestedDone = true; g_nestedLog(); }
         vqt::yield(tag);
+        W->sinkInFlight--;
         sinkExit();
+    }
+    bool flush() override
+    {
+        sinkOverlapEnter("flush");
+        vqt::yield("flush");
+        W->sinkInFlight--;
+        return true;
     }
 };
 
@@ -171,7 +189,16 @@ void scenarioC02L()
     buildC02Pipeline(*lg);
     lg->installMessageHandler();
     std::vector<int> tids;
-    for (int k = 0; k < p; k++) tids.push_back(spawnJ([k, m] { for (int i = 0; i < m; i++) qDebug("p%d:%d", k, i); }, "producer"));
+    for (int k = 0; k < p; k++) tids.push_back(spawnJ([k, m] {
+        for (int i = 0; i < m; i++) {
+            if (k == 0 && i == m - 1) {
+                // the last message of producer 0 is a fatal one, entered the way Qt enters the handler (Qt's abort afterwards is not
+                // part of the library): the logger flushes its sinks for it, and that must not overlap with another thread's send
+                QMessageLogContext ctx("f.cpp", 1, "fn", "default");
+                Logger::messageHandler(QtFatalMsg, ctx, QStringLiteral("p%1:%2").arg(k).arg(i));
+            } else qDebug("p%d:%d", k, i);
+        }
+    }, "producer"));
     join(tids);
     Logger::restorePreviousMessageHandler();
     delete lg;
@@ -485,9 +512,24 @@ template<class H> void scenarioC04X()
         // per-thread order
         std::map<int, int> last;
         for (auto &d : W->a) { if (last.count(d.prod) && d.idx <= last[d.prod]) vs::violation("producer-order", "history " + hist + ": producer " + S(d.prod) + " message " + S(d.idx) + " delivered after " + S(last[d.prod])); last[d.prod] = d.idx; }
+        // first-in-first-out across threads: a logging call that returned before another began is delivered first
+        for (size_t i = 0; i < W->a.size(); i++) for (size_t j = i + 1; j < W->a.size(); j++) {
+            auto x = W->calls.find(W->a[i].text), y = W->calls.find(W->a[j].text);
+            if (x == W->calls.end() || y == W->calls.end()) continue;
+            if (y->second.second && x->second.first && y->second.second < x->second.first)
+                vs::violation("real-time-order", "history " + hist + ": the call for " + W->a[j].text + " returned before the call for " + W->a[i].text + " began, but " + W->a[i].text + " is delivered first");
+        }
     };
     vqt::VCoreApp *app = nullptr;
     auto *h = new H();
+    if (P.nested) g_nestedLog = [h, sent] {
+        QString text = QStringLiteral("p2:0");
+        W->calls[text.toStdString()].first = ++W->clock;
+        logOne(h, QtWarningMsg, text);
+        W->calls[text.toStdString()].second = ++W->clock;
+        sent->push_back(text.toStdString());
+    };
+    else g_nestedLog = nullptr;
     h->append(SinkPtr(new RecSink(&W->a, "sink")));
     bool async = false, stopOnQuit = false;
     int seq = 0, racerTid = -1;
@@ -509,7 +551,9 @@ template<class H> void scenarioC04X()
                 for (int k = 0; k < n; k++) {
                     QString text = QStringLiteral("p1:%1").arg(k);
                     bool mustBeSync = W->syncForever;   // the last stop had returned before this call began
+                    W->calls[text.toStdString()].first = ++W->clock;
                     logOne(h, QtInfoMsg, text);
+                    W->calls[text.toStdString()].second = ++W->clock;
                     sent->push_back(text.toStdString());
                     if (mustBeSync) {
                         bool ok = false;
@@ -529,7 +573,9 @@ template<class H> void scenarioC04X()
         case 'L': {
             QString text = QStringLiteral("p0:%1").arg(seq++);
             bool wasAsync = async;
+            W->calls[text.toStdString()].first = ++W->clock;
             logOne(h, (seq % 2) ? QtDebugMsg : QtWarningMsg, text);
+            W->calls[text.toStdString()].second = ++W->clock;
             sent->push_back(text.toStdString());
             if (!wasAsync && !delivered(text.toStdString(), vs::self()))
                 vs::violation("sync-not-delivered", "history " + hist + ": message " + text.toStdString() + " logged while no logger thread exists was not handled on the caller's thread before the call returned");
@@ -567,7 +613,7 @@ int main(int argc, char **argv)
     P.p = vx::argInt(argc, argv, "--p", 2); P.m = vx::argInt(argc, argv, "--m", 2);
     P.backlog = vx::argInt(argc, argv, "--backlog", 2); P.racer = vx::argInt(argc, argv, "--racer", 0);
     P.cycles = vx::argInt(argc, argv, "--cycles", 1); P.glib = vx::argInt(argc, argv, "--glib", 1);
-    P.hist = vx::argStr(argc, argv, "--hist", ""); P.racerAt = vx::argInt(argc, argv, "--racer-at", -1);
+    P.hist = vx::argStr(argc, argv, "--hist", ""); P.racerAt = vx::argInt(argc, argv, "--racer-at", -1); P.nested = vx::argInt(argc, argv, "--nested", 0);
     const char *histsFile = vx::argStr(argc, argv, "--hists-file", nullptr);
     vs::Options o;
     o.bound = vx::argInt(argc, argv, "--bound", 2);
@@ -595,7 +641,7 @@ int main(int argc, char **argv)
         for (auto &x : R.outcomes) sum.outcomes.insert(x);
         sum.counters["deadlocks"] += R.deadlocks; sum.counters["livelocks"] += R.livelocks; sum.counters["blocked_lock_events"] += R.blockedLockEvents;
         std::string pj = "\"scenario\":" + vx::jstr(s) + ",\"p\":" + S(P.p) + ",\"m\":" + S(P.m) + ",\"backlog\":" + S(P.backlog) + ",\"racer\":" + S(P.racer) + ",\"cycles\":" + S(P.cycles) + ",\"glib\":" + S(P.glib)
-            + ",\"hist\":" + vx::jstr(P.hist) + ",\"racer-at\":" + S(P.racerAt);
+            + ",\"hist\":" + vx::jstr(P.hist) + ",\"racer-at\":" + S(P.racerAt) + ",\"nested\":" + S(P.nested);
         for (auto &v : R.violations) {
             std::string c; for (size_t i = 0; i < v.choices.size(); i++) c += (i ? "," : "") + S(v.choices[i]);
             sum.violate(s + ":" + v.key, "[" + label + "] " + v.what + " | observations: " + v.report, "{" + pj + ",\"choices\":" + vx::jstr(c) + "}");
